@@ -96,7 +96,13 @@ def judge(w, src, origin="?"):
     if r.get("tree_equal") is False:
         bad("tree_diff", shape_of_diff(r.get("diff", {})), "diff=%s fmt=%r" % (json.dumps(r.get("diff"))[:300], f1[:200]))
     if r.get("idempotent") is False:
-        bad("not_idempotent", "", "fmt=%r fmt2=%r" % (f1[:200], r.get("fmt2", "")[:200]))
+        l1, l2 = f1.split("\n"), r.get("fmt2", "").split("\n")
+        i = 0
+        while i < min(len(l1), len(l2)) and l1[i] == l2[i]:
+            i += 1
+        norm = lambda x: re.sub(r"[A-Za-z_][A-Za-z0-9_]*", "w", re.sub(r"\d+", "N", x))[:40]
+        bad("not_idempotent", "%r->%r" % (norm(l1[i]) if i < len(l1) else None, norm(l2[i]) if i < len(l2) else None),
+            "fmt=%r fmt2=%r" % (f1[:200], r.get("fmt2", "")[:200]))
     if "fmt2_errors" in r:
         bad("fmt2_error", "", str(r["fmt2_errors"])[:200])
     a, b = r.get("compile_src"), r.get("compile_fmt")
